@@ -49,12 +49,15 @@ thread_local! {
     /// extra hook invoked by `snap` and `fds` (the virtual runner installs one that records the
     /// simulated process state)
     pub static PROC_HOOK: RefCell<Option<Box<dyn Fn(&str, i32)>>> = const { RefCell::new(None) };
+    /// set by `release`, awaited by `hold`
+    pub static RELEASED: std::cell::Cell<bool> = const { std::cell::Cell::new(false) };
 }
 
 pub fn reset_stores() {
     TRACE.with(|t| t.borrow_mut().clear());
     SINKS.with(|t| t.borrow_mut().clear());
     SNAPS.with(|t| t.borrow_mut().clear());
+    RELEASED.with(|r| r.set(false));
 }
 
 fn values(args: &[Field]) -> Vec<String> {
@@ -263,6 +266,29 @@ async fn selfkill_main<S: Sys>(env: &mut Env<S>, args: Vec<Field>) -> BResult {
     }
 }
 
+/// `hold`: keeps the calling (virtual) process busy - yielding to the scheduler at a preemption
+/// point in every round - until some process has run `release`. Needs the preemption hooks to be
+/// switched on (status 3 otherwise). A process that nobody releases spins until the scheduler's
+/// step limit ends the run ("did not finish").
+async fn hold_main<S: Sys>(_env: &mut Env<S>, _args: Vec<Field>) -> BResult {
+    loop {
+        if RELEASED.with(|r| r.get()) {
+            return BResult::new(ExitStatus(0));
+        }
+        let before = yash_env::verif_hooks::yield_count();
+        yash_env::verif_hooks::preemption_point().await;
+        if yash_env::verif_hooks::yield_count() == before {
+            return BResult::new(ExitStatus(3));
+        }
+    }
+}
+
+/// `release`: lets every `hold` return.
+fn release_main<S: Sys>(_env: &mut Env<S>, _args: Vec<Field>) -> BResult {
+    RELEASED.with(|r| r.set(true));
+    BResult::new(ExitStatus(0))
+}
+
 pub fn fnv(data: &[u8]) -> u64 {
     let mut h: u64 = 0xcbf29ce484222325;
     for b in data {
@@ -341,6 +367,8 @@ pub fn register<S: Sys>(env: &mut Env<S>) {
         ("gen", Builtin::new(Type::Mandatory, |env, args| Box::pin(gen_main(env, args)))),
         ("sink", Builtin::new(Type::Mandatory, |env, args| Box::pin(sink_main(env, args)))),
         ("selfkill", Builtin::new(Type::Mandatory, |env, args| Box::pin(selfkill_main(env, args)))),
+        ("hold", Builtin::new(Type::Mandatory, |env, args| Box::pin(hold_main(env, args)))),
+        ("release", Builtin::new(Type::Mandatory, |env, args| Box::pin(ready(release_main(env, args))))),
         ("pos", Builtin::new(Type::Mandatory, |env, args| Box::pin(ready(pos_main(env, args))))),
         ("snap", Builtin::new(Type::Mandatory, |env, args| Box::pin(ready(snap_main(env, args))))),
     ];
